@@ -110,6 +110,37 @@ def h_list(E, kind, attempt):
 LIST_LENGTH_KINDS = ('flat', 'flat-ordered', 'grouped', 'grouped-uneven', 'grouped-unordered', 'grouped-mixed')
 
 
+def h_pinned_ok(E, cls, pinned):
+    """an explicit `ok` in an answer is honoured only on an answer worth full credit (validate_single_answer: "if the ok value is 'computed' or the
+    grade decimal is not 1, compute ok"); for every other credit the pin has no effect and ok follows the grade - in the stored answer and in the result"""
+    import mitxgraders as m
+    g_ = E.real('credit', 0, 1)
+    ans = {'expect': 'cat' if cls == 'StringGrader' else '2*x', 'grade_decimal': g_, 'msg': 'hint'}
+    if pinned != 'absent':
+        ans['ok'] = pinned
+    if cls == 'StringGrader':
+        g = m.StringGrader(answers=ans)
+        r = g(None, 'cat')
+    else:
+        SX = make_sym_sampler(E, 'x', 1, 3)
+        g = m.FormulaGrader(answers=ans, variables=['x'], sample_from={'x': SX()}, samples=1)
+        r = g(None, 'x+x')
+    stored = g.config['answers'][0]['ok']
+    pin_effective = sand(g_ == 1, pinned not in ('absent', 'computed'))
+    want = sif_obj(pin_effective, pinned, None)
+    s_ok, c_ok = wellformed(r)
+    E.check('result-shape', s_ok)
+    if bool(pin_effective):
+        E.check('pin-honoured-only-at-full-credit', stored == pinned and r['ok'] == pinned)
+    else:
+        E.check('pin-without-effect-ok-follows-grade', sand(c_ok, stored == r['ok']))
+    return str(r['ok'])
+
+
+def sif_obj(c, a, b):
+    return a if bool(c) else b
+
+
 def h_list_length(E, kind, n_stu):
     """the number of submitted boxes is arbitrary: a ListGrader call either raises a library error or returns one well-formed entry per box, in box order"""
     import mitxgraders.baseclasses as B
@@ -287,6 +318,9 @@ def harnesses(tier):
     for kind in ('slg', 'slg-surplus', 'slg-short', 'list-ordered', 'list-unordered', 'list-of-slg'):
         for att in (False, True):
             add(h_list, 'list', dict(kind=kind, attempt=att), '2 entries, credits in [0,1]')
+    for cls in ('StringGrader', 'FormulaGrader'):
+        for pinned in ('absent', 'computed', True, False, 'partial'):
+            add(h_pinned_ok, 'pinned_ok', dict(cls=cls, pinned=pinned), 'answer credit any real in [0,1]')
     for kind in LIST_LENGTH_KINDS:
         for n_stu in range(1, 7):
             add(h_list_length, 'list_length', dict(kind=kind, n_boxes=n_stu), '1..6 submitted boxes against 3 or 4 expected; credits in [0,1]', max_paths=None if T else 60)
